@@ -10,9 +10,9 @@ CONSTANTS
   GetModes = {"set"}
   Ops = {}
   RecheckRef = TRUE
-  AtomicFin = FALSE
-  RecheckClosed = FALSE
-  CloseExcl = TRUE
+  AtomicFin = TRUE
+  RecheckClosed = TRUE
+  CloseExcl = FALSE
 VIEW TraceView
 POSTCONDITION Report
 CHECK_DEADLOCK FALSE
